@@ -97,7 +97,7 @@ def run_query(sim, yp, name, qargs, ctl, k, mode, fault, cap=ANSWER_CAP):
     ctl['fault'] = fault
     ctl['calls'] = 0
     ctl['fired'] = 0
-    ctl['exc'] = core.Boom('injected')
+    ctl['exc'] = core.INJECTED[fault[2] if fault is not None and len(fault) > 2 else 'Exception']('injected')
     task = GenTask(yp.query(name, qargs))
     ans = []
     end = None
@@ -111,15 +111,18 @@ def run_query(sim, yp, name, qargs, ctl, k, mode, fault, cap=ANSWER_CAP):
             if k is None and len(ans) >= cap:
                 end = 'cap'
                 break
-    except core.Boom as e:
-        end = 'boom' if e is ctl['exc'] else 'boom-other-object'
     except RecursionError:
         end = 'exc:RecursionError'
     except TM.TooDeep:
         task.close()
         raise
     except Exception as e:
-        end = 'exc:' + type(e).__name__
+        if e is ctl['exc']:
+            end = 'boom'
+        elif isinstance(e, tuple(core.INJECTED.values())):
+            end = 'boom-other-object'
+        else:
+            end = 'exc:' + type(e).__name__
     if end is None or end == 'cap':
         info['live'] = tuple(sim.live)
         info['bound'] = sim.bound_count()
@@ -215,7 +218,7 @@ def execute(plan):
         n = len(r1[0])
         if plan['faults'] == 'all':
             faults = [['abandon', k, mode] for k in range(n + 1) for mode in ('close', 'drop', 'throw')]
-            faults += [['raise', j, ph] for j in range(1, min(ncalls, MAX_RAISE_POINTS) + 1) for ph in ('pre', 'resume')]
+            faults += [['raise', j, ph, core.INJECTED_KINDS[(j + i) % 4]] for j in range(1, min(ncalls, MAX_RAISE_POINTS) + 1) for i, ph in enumerate(('pre', 'resume'))]
         else:
             faults = plan['faults']
         for fault in faults:
@@ -230,7 +233,7 @@ def execute(plan):
                 if len(info.get('live', ())) >= 3:
                     log.count('abandoned_with_2plus_live_queries')
             else:
-                ans, end, info = run_query(sim, yp, name, qargs, ctl, None, 'exhaust', (fault[1], fault[2]))
+                ans, end, info = run_query(sim, yp, name, qargs, ctl, None, 'exhaust', (fault[1], fault[2], fault[3] if len(fault) > 3 else 'Exception'))
                 log.count('fault_user_raise')
                 if info['fired']:
                     log.count('fault_user_raise_fired')
